@@ -148,14 +148,27 @@ func setScenarios(c *Ctx) ([]drive.SetScenario, []string) {
 		{
 			th, h := throwProc("thrower")
 			wp := taskProc("waiting", 2)
-			poll := make([]int, 0, 42)
-			for i := 0; i < 40; i++ {
-				poll = append(poll, 1)
-			}
-			poll = append(poll, 3000)
-			scp := drive.SetScenario{Members: []render.SetMember{{P: th, Exec: true}, {P: wp, Exec: false}}, HoldMs: 15, Waits: [][]int{poll, {3000}}}
+			scp := drive.SetScenario{Members: []render.SetMember{{P: th, Exec: true}, {P: wp, Exec: false}}, HoldMs: 8, PollMs: 14, Waits: [][]int{{3000}}}
 			scp.Flows = []render.MsgFlow{{Src: "P0_" + h, Dst: "P1_" + wp.Nodes[0].Id}}
-			add("msgflow-start-polled", scp)
+			for k := 0; k < 12; k++ {
+				add("msgflow-start-polled", scp)
+			}
+			// ... and with a thrower that is over at once (start -> throw -> end)
+			{
+				tb := prog.NewBuilder("thrower0")
+				ts := tb.AddNode("start", "")
+				thn := tb.AddNode("throw", "")
+				tb.N(thn).Evs = []prog.EvDef{{K: "message", Ref: "M"}}
+				te := tb.AddNode("end", "")
+				tb.Connect(ts, thn, prog.Cond{})
+				tb.Connect(thn, te, prog.Cond{})
+				wp2 := taskProc("waiting", 2)
+				sc0 := drive.SetScenario{Members: []render.SetMember{{P: tb.Done(), Exec: true}, {P: wp2, Exec: false}}, HoldMs: 10, PollMs: 6, Waits: [][]int{{3000}}}
+				sc0.Flows = []render.MsgFlow{{Src: "P0_" + thn, Dst: "P1_" + wp2.Nodes[0].Id}}
+				for k := 0; k < 12; k++ {
+					add("msgflow-start-polled0", sc0)
+				}
+			}
 		}
 		// message flow waking a catch event of another executable process
 		th2, h2 := throwProc("thrower")
